@@ -484,7 +484,7 @@ pub fn check_trace(s: &Script, tr: &Trace, rep: &mut Report) -> Outcome {
                                     } else {
                                         fail!("C04", "evict/without-cause", "on_evict(#{id:x}) for key {key} in a step that neither admits a new key nor ticks ({})", step.short());
                                     }
-                                    if e.charge_known && *cost != e.charge {
+                                    if e.charge_known && charges_in_domain && *cost != e.charge {
                                         fail!("C16", "callback/evict-cost", "on_evict(#{id:x}) reported cost {cost}, the entry was charged {}", e.charge);
                                         if o.tick_at.is_some() {
                                             also!("C05", "cleanup/evict-cost", format!("expired key {key}: on_evict cost {cost} != charge {}", e.charge));
@@ -613,7 +613,7 @@ pub fn check_trace(s: &Script, tr: &Trace, rep: &mut Report) -> Outcome {
                 }
                 // C01: the excess over max_cost may only grow through updates or a lowered max_cost
                 let excess = (o.snap.used as i128 - o.snap.max_cost as i128).max(0);
-                if excess > prev_excess && !step_is_update {
+                if excess > prev_excess && !step_is_update && !matches!(step, Step::Clear) {
                     fail!("C01", "used/over-max-without-update", "used {} exceeds max_cost {} by {excess} (was {prev_excess}) after {}", o.snap.used, o.snap.max_cost, step.short());
                 }
                 prev_excess = excess;
